@@ -13,7 +13,7 @@ func (vc *VC) mapKeyTerm(k Val) *Term {
 	case KInt:
 		return k.C[0]
 	case KString:
-		return App("skey", SInt, k.C[0], k.C[1], k.C[2])
+		return vc.stringKey(k)
 	case KBool:
 		return Ite(k.C[0], One, Zero)
 	}
@@ -77,4 +77,17 @@ func (vc *VC) mapInitEmpty(st *State, mt types.Type, m Val) {
 	hn := mapHasHeap(mt)
 	hh := vc.heap(st, hn, ArrSortOf(ArrSortOf(SBool)))
 	st.heaps[hn] = Store(hh, m.C[0], ConstArr(ArrSortOf(SBool), False))
+}
+
+type originRec struct {
+	row      *Term // (Array Int Int) contents the value was copied from
+	off, len *Term
+}
+
+// stringKey: a map key / identity for a string that depends on its contents only (ckey is uninterpreted).
+func (vc *VC) stringKey(s Val) *Term {
+	if o, ok := vc.origins[s.C[0].id]; ok && s.C[1] == Zero {
+		return App("ckey", SInt, o.row, o.off, s.C[2])
+	}
+	return App("ckey", SInt, Select(vc.strMem(), s.C[0]), s.C[1], s.C[2])
 }
